@@ -10,9 +10,34 @@ const ArenaReadOnly = false
 
 func newArena() *arena { return &arena{} }
 
-func (a *arena) u64s(x []uint64) []uint64 { return append(make([]uint64, 0, len(x)), x...) }
-func (a *arena) i32s(x []int32) []int32   { return append(make([]int32, 0, len(x)), x...) }
-func (a *arena) bytes(x []byte) []byte    { return append(make([]byte, 0, len(x)), x...) }
+// Every slice handed out has spareCap elements of SPARE CAPACITY behind its
+// length, filled with a sentinel: a callee that appends to (or re-slices and
+// writes through) an argument modifies memory of its caller that lies beyond
+// len — the snapshot covers the full capacity.
+func (a *arena) u64s(x []uint64) []uint64 {
+	out := make([]uint64, len(x)+spareCap)
+	copy(out, x)
+	for i := len(x); i < len(out); i++ {
+		out[i] = sentinel64
+	}
+	return out[:len(x)]
+}
+func (a *arena) i32s(x []int32) []int32 {
+	out := make([]int32, len(x)+spareCap)
+	copy(out, x)
+	for i := len(x); i < len(out); i++ {
+		out[i] = sentinel32
+	}
+	return out[:len(x)]
+}
+func (a *arena) bytes(x []byte) []byte {
+	out := make([]byte, len(x)+spareCap)
+	copy(out, x)
+	for i := len(x); i < len(out); i++ {
+		out[i] = sentinel8
+	}
+	return out[:len(x)]
+}
 func (a *arena) strs(x []string) []string {
 	out := make([]string, len(x))
 	for i, s := range x {
